@@ -12,7 +12,7 @@ REAL_TRACE = ("real: pysnark/runtime.py, boolean.py, fixedpoint.py, branching.py
 
 
 def swarm_cfg(rng, backends=W.DICT_BACKENDS, fxp_p=0.5, bits=(3, 4, 5, 6, 8, 8, 16)):
-    return {
+    cfg = {
         "backend": rng.choice(backends),
         "bitlength": rng.choice(bits),
         "resolution": rng.choice([0, 1, 2, 3, 4, 8]),
@@ -22,6 +22,14 @@ def swarm_cfg(rng, backends=W.DICT_BACKENDS, fxp_p=0.5, bits=(3, 4, 5, 6, 8, 8, 
         "p_bool_cond": rng.choice([0.0, 0.5, 1.0]),
         "fxp": rng.random() < fxp_p,
     }
+    if cfg["backend"] == "zkinterface":
+        # configuration fault: the generic zkinterface backend is given another field through its public
+        # set_modulus() only AFTER pysnark.runtime has been imported (the draw comes from a generator of its own so
+        # that the plans of all other runs stay what they were)
+        r2 = _random.Random("late-modulus/%r" % sorted(cfg.items()))
+        if r2.random() < 0.3:
+            cfg["late_modulus"] = r2.choice([W.BLS12_381, W.ED25519])
+    return cfg
 
 
 def swarm_weights(rng, base, toggles):
@@ -46,6 +54,35 @@ def draw_faults(rng, kinds, plan):
     return f
 
 
+def late_modulus_tail(plan):
+    """Runs whose field was switched after import get one operand that wraps around that field and a few
+    operations whose shadow values have to be reduced modulo it (draws from a generator of its own)."""
+    q = plan["cfg"].get("late_modulus")
+    if not q:
+        return
+    r2 = _random.Random("late-tail/%s" % P.plan_digest(plan))
+    if r2.random() < 0.3:
+        return
+    n_i = sum(1 for i in plan["inputs"] if i["t"] == "I")
+    plan["inputs"].append({"kind": "priv", "t": "I", "v": r2.choice([(1 << 40) + 1, q - 1, q + 2, -(1 << 70) - 7,
+                                                                     W.BN254 - 1, 5, 7])})
+    plan["inputs"].append({"kind": "priv", "t": "I", "v": r2.randrange(0, 4)})
+    big, small = {"ref": n_i, "t": "I"}, {"ref": n_i + 1, "t": "I"}
+    tail = []
+    for _ in range(r2.randrange(1, 4)):
+        u = r2.random()
+        if u < 0.5:
+            e = {"op": "**", "a": big, "b": small, "t": "I"}
+        elif u < 0.7:
+            e = {"op": "*", "a": big, "b": big, "t": "I"}
+        elif u < 0.85:
+            e = {"op": "==", "a": big, "b": {"k": r2.choice([0, 1]), "t": "I"}, "t": "B"}
+        else:
+            e = {"op": "/", "a": big, "b": {"k": r2.choice([3, 5, 7]), "t": "I"}, "t": "I"}
+        tail.append({"s": "let", "e": e, "try": True})
+    plan["body"].extend(tail)
+
+
 class TraceCheck:
     """Base for checks decided by tracesim."""
     props = ()
@@ -65,6 +102,7 @@ class TraceCheck:
         cfg = self.cfg(rng)
         w = swarm_weights(rng, self.weights, self.toggles)
         plan = P.generate(rng, cfg, w)
+        late_modulus_tail(plan)
         return {"plan": plan, "faults": draw_faults(rng, self.fault_kinds, plan)}
 
     def execute(self, case):
@@ -120,9 +158,10 @@ class C08(TraceCheck):
     prop = "C08"
     props = ("C08",)
     budget = {"quick": 4000, "thorough": 200000}
-    weights = {"guarded": 9, "ite_call": 4, "let": 8, "assert": 3, "set_ie": 1.0, "fxp": 1}
+    weights = {"guarded": 9, "ite_call": 4, "let": 8, "assert": 3, "set_ie": 1.0, "fxp": 1, "def_helper": 2.5,
+               "call_helper": 6}
     toggles = ("div", "bits", "shift", "pow", "boolop", "check", "tobits", "tobool", "assert", "set_ie",
-               "ite_call")
+               "ite_call", "def_helper")
     fault_kinds = ("abort_seam", "abort_stmt")
     rule = ("seeded plans of nested guarded regions (decorator form and callable if_then_else branches, "
             "raw 0/1 and boolean-typed conditions, guard values 0/1 per level), left by return, by a "
@@ -524,6 +563,15 @@ class C02(ProverCheck):
             body = [region] + [{"s": "let", "e": bitop()} for _ in range(rng.choice([1, 2]))]
             return {"plan": {"cfg": cfg, "inputs": inputs, "body": body}, "seed": rng.randrange(1 << 30),
                     "deep": tier == "thorough"}
+        if i % 8 == 5:
+            # a tiny program over the oblivious block API: the merged variables are results like any other, and no
+            # lie on a hint wire (selection bits, loop conditions, guards) may move them
+            bcfg = {"backend": cfg["backend"], "bitlength": rng.choice([4, 5, 6]), "resolution": 2, "max_nesting": 1,
+                    "p_try": 0.0, "fxp": False, "block_small": True}
+            plan = BlockGen(rng, bcfg).plan()
+            for inp in plan["inputs"]:
+                inp["v"] = rng.choice([0, 1, 2, 3])
+            return {"plan": plan, "seed": rng.randrange(1 << 30), "deep": tier == "thorough"}
         if i % 4 == 3:
             # a region (taken or not) that works on the operands, then operations on the same operands outside:
             # whatever the region left behind must not weaken what follows
@@ -574,7 +622,7 @@ class C03(ProverCheck):
     kinds = ["lt", "le", "eq", "ne", "gt", "ge", "zero", "nonzero", "positive", "positive_n", "range",
              "range_secret", "tobool", "bits_n", "bool_cmp", "fxp_cmp", "fxp_range", "gt", "lt", "positive_n",
              "range", "bool_vs_int", "boolop_int", "fxp_const_other_resolution", "int_const_other_bitlength",
-             "int_vs_fxp"]
+             "int_vs_fxp", "dead_first"]
     rule = ("one assertion or type declaration per plan (assert_lt/le/eq/ne/gt/ge on integer, boolean and "
             "fixed-point operands with secret and constant right-hand sides, integer receiver with fixed-point "
             "operand and vice versa, assert_zero/nonzero, "
@@ -587,10 +635,33 @@ class C03(ProverCheck):
             "non-trivial = distinct (plan, vector) pairs that reached a verdict")
 
     def gen(self, rng, i, tier):
+        kind = self.kinds[i % len(self.kinds)]
+        if kind != "dead_first":
+            return self.gen_kind(rng, i, tier, kind)
+        # history: the very same assertion / declaration on the very same operand objects was executed before, inside
+        # a region guarded by a secret condition (taken or not, errors swallowed by the script); what that first
+        # execution left behind must not weaken the second one
+        base = rng.choice(["tobool", "tobool", "positive", "bits_n", "lt", "ge", "eq", "zero", "nonzero", "range",
+                           "bool_vs_int", "boolop_int"])
+        case = self.gen_kind(rng, i, tier, base)
+        plan = case["plan"]
+        if len(plan["body"]) != 1:
+            return case
+        stmt = plan["body"][0]
+        first = dict(copy.deepcopy(stmt), **{"try": True})
+        plan["inputs"].append({"kind": "priv", "t": "B", "v": 0})
+        n_b = sum(1 for x in plan["inputs"] if x["t"] == "B")
+        plan["cfg"]["max_nesting"] = 1
+        plan["body"] = [{"s": "guarded", "cond": {"ref": n_b - 1, "t": "B"}, "body": [first]}, stmt]
+        n_old = len(plan["inputs"]) - 1
+        case["vectors"] = [(list(v) + [x["v"] for x in plan["inputs"][len(v):n_old]])[:n_old] + [c]
+                           for v in case["vectors"][:6] for c in (0, 1)]
+        return case
+
+    def gen_kind(self, rng, i, tier, kind):
         cfg = self.cfg(rng)
         cfg["fxp"] = True
         bl = cfg["bitlength"]
-        kind = self.kinds[i % len(self.kinds)]
         A = {"ref": 0, "t": "I"}
         Bv = {"ref": 1, "t": "I"}
         inputs = [{"kind": "priv", "t": "I", "v": 0}]
@@ -1446,7 +1517,18 @@ class FileCheck(TraceCheck):
             # afterwards, then the final proving step
             k = rng.randrange(0, len(plan["body"]) + 1)
             plan["body"].insert(k, {"s": "checkpoint_prove"})
-            plan["body"].append({"s": "val", "a": {"ref": rng.randrange(8), "t": "I"}, "try": True})
+            tail = rng.choice(["val", "val", "priv_only", "pub_only", "nothing", "more_code"])
+            if tail == "val":
+                plan["body"].append({"s": "val", "a": {"ref": rng.randrange(8), "t": "I"}, "try": True})
+            elif tail == "priv_only":
+                # only new private values after the first prove(): same public values, no new constraint
+                del plan["body"][k + 1:]
+                plan["body"].append({"s": "bulk_priv", "n": rng.choice([1, 2, 5])})
+            elif tail == "pub_only":
+                del plan["body"][k + 1:]
+                plan["body"].append({"s": "bulk_pub", "n": rng.choice([1, 2])})
+            elif tail == "nothing":
+                del plan["body"][k + 1:]
         bulk = None
         u = rng.random()
         if u < 0.004:
@@ -1689,6 +1771,10 @@ class C18(TraceCheck):
             plan["body"].insert(rng.randrange(0, k + 1), {"s": "caught_exit", "arg": pre})
         case = {"plan": plan, "mode": mode, "arg": arg, "k": k, "autoprove": rng.random() < 0.8,
                 "stale": rng.random() < 0.3 and backend != "qaptools", "pre": pre}
+        if rng.random() < 0.25:
+            # the application installed its own sys.excepthook before importing the library: well-behaved, ending
+            # in SystemExit(3), or failing itself
+            case["prehook"] = rng.choice(["plain", "status", "broken"])
         if rng.random() < 0.2:
             # runtime.operation set by the script (the libsnark examples' idiom) on a backend that has no such step
             case["operation"] = rng.choice(["prove", "keygen", "verify", "nonsense"])
@@ -1701,6 +1787,8 @@ class C18(TraceCheck):
         cfg = {"inputs": [i["v"] for i in plan["inputs"]], "autoprove": case["autoprove"]}
         if case.get("operation") is not None:
             cfg["operation"], cfg["namevals"] = case["operation"], case.get("namevals") or {}
+        if case.get("prehook"):
+            cfg["prehook"] = case["prehook"]
         pre = {}
         if case["stale"]:
             pre = {fn: b"STALE ARTEFACT OF AN EARLIER, LARGER RUN " + fn.encode() + b"\xa5" * 50000
@@ -1721,6 +1809,8 @@ class C18(TraceCheck):
             site["pre"] = "caught_exit:" + case["pre"]
         if case.get("operation") is not None:
             site["operation"] = case["operation"]
+        if case.get("prehook"):
+            site["excepthook"] = case["prehook"]
         viol = []
 
         def add(oracle, detail, **extra):
@@ -1732,7 +1822,8 @@ class C18(TraceCheck):
                          if r["before"].get(fn) != r["after"].get(fn) and fn not in TRACING_FILES)
         art_changed = [fn for fn in changed if fn in art or fn.startswith("pysnark_")]
         rc = r["rc"]
-        hook_tb = ("Traceback" in r["stderr"] and ("atexit" in r["stderr"] or "process_snark" in r["stderr"]))
+        # an exception that escaped from an atexit callback (CPython reports it and carries on)
+        hook_tb = ("Exception ignored in atexit callback" in r["stderr"] or "Error in atexit._run_exitfuncs" in r["stderr"])
         if mode == "os__exit":
             if proves or art_changed:
                 add("artefact_on_failure", "os._exit: prove ran %d times, files changed %r" % (len(proves), changed))
@@ -1778,6 +1869,8 @@ class C18(TraceCheck):
         faults = {"term:" + mode: 1}
         if case.get("operation") is not None:
             faults["operation_set"] = 1
+        if case.get("prehook"):
+            faults["app_excepthook:" + case["prehook"]] = 1
         if case["stale"]:
             faults["stale"] = 1
         probes = {"status_%s" % ("0" if rc == 0 else "nonzero"): 1, "prove_ran": len(proves)}
@@ -2072,6 +2165,11 @@ except NotImplementedError as _e:
     _ph = None
 if _ph is not None:
     _side({"ev": "poseidon_params", "params": _pd(_ph)})
+    if _rt.backend_name != "nobackend" and _cfg.get("guarded_first"):
+        _gc = PrivValBool(_cfg["guarded_first"]["cond"])
+        for _n in _cfg["guarded_first"]["lengths"]:
+            guarded(_gc)(lambda: _ph.poseidon_hash([PrivVal(3 + _k) for _k in range(_n)]))()
+        _side({"ev": "guarded_first", "cond": _cfg["guarded_first"]["cond"]})
     if _rt.backend_name != "nobackend":
         for _vec in _cfg["perm_inputs"]:
             _n0 = _rt.num_constraints
@@ -2157,14 +2255,21 @@ class C20(TraceCheck):
             messages.append([val() for _ in range(rng.randrange(0, 13))])
         bits = [[rng.randrange(2) for _ in range(rng.choice([1, 8, 33]))] for _ in range(2)]
         other = rng.choice([b for b in self.BACKENDS if b != backend])
-        return {"path": path, "backend": backend, "other": other, "perm_inputs": perm, "messages": messages,
+        case = {"path": path, "backend": backend, "other": other, "perm_inputs": perm, "messages": messages,
                 "bitstrings": bits}
+        if rng.random() < 0.35:
+            # history: the first hashes of the run happen inside a region guarded by a secret condition (taken or
+            # not), e.g. an optional Merkle level; whatever they leave behind must not change later hashes
+            case["guarded_first"] = {"cond": rng.choice([0, 0, 1]), "lengths": sorted({L, rng.choice([0, 1, 2, 3, 4])})}
+        return case
 
     def run(self, case):
         backend, path = case["backend"], case["path"]
         env = X.child_env(None, stubs=True)
         cfg = {"perm_inputs": case["perm_inputs"], "messages": case["messages"], "bitstrings": case["bitstrings"],
                "preimport": [], "importfail": []}
+        if case.get("guarded_first"):
+            cfg["guarded_first"] = case["guarded_first"]
         if path == "env":
             env["PYSNARK_BACKEND"] = backend
         elif path == "preimport":
@@ -2258,7 +2363,9 @@ class C20(TraceCheck):
         return {"violations": viol, "digest": E.sha((name, [(e["ev"], e.get("out"), e.get("traced")) for e in ev],
                                                      [v["oracle"] for v in viol])),
                 "nontrivial": None, "nontrivial_list": nt or [E.sha((path, name))], "events": len(ev),
-                "faults": {"select:" + path: 1}, "probes": {"backend_" + name: 1,
+                "faults": dict({"select:" + path: 1}, **({"guarded_first:%d" % case["guarded_first"]["cond"]: 1}
+                                                         if any(e["ev"] == "guarded_first" for e in ev) else {})),
+                "probes": {"backend_" + name: 1,
                                                               "poseidon_unavailable": int(bool(unavailable))},
                 "sigs": [E.sha((path, name))], "outcome": [r["rc"], name]}
 
@@ -2426,6 +2533,7 @@ class BlockGen:
     def __init__(self, rng, cfg):
         self.r = rng
         self.cfg = cfg
+        self.small = bool(cfg.get("block_small"))     # tiny programs for the lying-prover search of C02
         self.names = ["x%d" % i for i in range(rng.randrange(1, 4))]
         # list-valued tracked variables (flat and nested), assigned cell by cell inside blocks
         self.lists = {}
@@ -2433,10 +2541,15 @@ class BlockGen:
             self.lists["l0"] = [rng.randrange(2, 4)]
         if rng.random() < 0.5:
             self.lists["m0"] = [2, rng.randrange(1, 3)]
+        if self.small:
+            self.names, self.lists = self.names[:1], {}
         self.n_inputs = 0
         self.loopvars = []
         self.depth = 0
         self.lvn = 0
+        # a 0/1 "flag" variable used directly as a condition: starts as a public int, becomes a raw secret integer
+        # (1 - comparison) or stays public, depending on what the blocks assign
+        self.flags = ["g0"] if rng.random() < (0.6 if self.small else 0.35) else []
 
     def cell(self):
         nm = self.r.choice(sorted(self.lists))
@@ -2465,11 +2578,11 @@ class BlockGen:
             return {"op": r.choice(["+", "-"]), "a": self.leaf(), "b": self.leaf()}
         if u < 0.88:
             return {"op": "*", "a": self.leaf(), "b": {"k": r.choice([0, 1, 2, -1])}}
-        if u < 0.92:
+        if u < 0.92 and not self.small:
             # operations that compute their result from hint wires (quotient, remainder, bits): under a false
             # block guard those hints are dummies and the merged result must still be the native one
             return {"op": r.choice(["//", "%", ">>"]), "a": self.leaf(), "b": {"k": r.choice([1, 2, 3])}}
-        return {"call": r.choice(["ite", "ite_lazy"]), "cond": self.cond(), "t_": self.leaf(), "f_": self.leaf()}
+        return {"call": r.choice(["ite", "ite_lazy"]), "cond": self.cmp(), "t_": self.leaf(), "f_": self.leaf()}
 
     def secret(self, e):
         """e + 0*secret: same value, guaranteed secret-typed (the property is about secret conditions)."""
@@ -2477,19 +2590,44 @@ class BlockGen:
             return e
         return {"op": "+", "a": e, "b": {"op": "*", "a": {"ref": self.r.randrange(0, 8), "t": "I"}, "b": {"k": 0}}}
 
-    def cond(self):
+    def cmp(self):
         r = self.r
+        a = {"tv": r.choice(self.names)} if r.random() < 0.7 else {"ref": r.randrange(0, 8), "t": "I"}
+        return {"op": r.choice(["<", "<=", "==", "!=", ">", ">="]), "a": self.secret(a), "b": self.leaf()}
+
+    def flag_expr(self):
+        r = self.r
+        u = r.random()
+        if u < 0.25:
+            return {"k": 1}      # (a public 0 as a block condition is refused as unreachable code: not generated)
+        if u < 0.75:
+            return {"op": "-", "a": {"k": 1}, "b": self.cmp()}       # raw secret integer 0/1
+        return {"op": "*", "a": {"tv": "g0"}, "b": {"op": "-", "a": {"k": 1}, "b": self.cmp()}}
+
+    def cond(self, flag_ok=False):
+        r = self.r
+        if flag_ok and self.flags and r.random() < 0.6:
+            # (only as a loop condition - `_.go = 1; while _while(_.go): ...`: the library refuses a public false
+            # condition as unreachable code, which an _if/_else on a public flag runs into by construction)
+            return {"tv": "g0"}
         a = {"tv": r.choice(self.names)} if r.random() < 0.7 else {"ref": r.randrange(0, 8), "t": "I"}
         b = self.leaf()
         return {"op": r.choice(["<", "<=", "==", "!=", ">", ">="]), "a": self.secret(a), "b": b}
 
     def body(self, nmax=3):
+        if self.small:
+            nmax = min(nmax, 2)
         return [self.stmt() for _ in range(self.r.randrange(1, nmax + 1))]
+
+    def itermax(self):
+        return self.r.randrange(1, 3 if self.small else 5)
 
     def stmt(self):
         r = self.r
         u = r.random()
         if self.depth >= self.cfg.get("max_nesting", 2) or u < 0.5:
+            if self.flags and r.random() < 0.2:
+                return {"s": "track", "name": "g0", "e": self.flag_expr()}
             if self.lists and r.random() < 0.45:
                 nm, path = self.cell()
                 return {"s": "track", "name": nm, "path": path, "e": self.expr()}
@@ -2512,7 +2650,7 @@ class BlockGen:
                     self.names.append(fresh)
                 return s
             if u < 0.88:
-                s = {"s": "block_while", "cond": self.cond(), "max": r.randrange(1, 5), "body": self.body()}
+                s = {"s": "block_while", "cond": self.cond(flag_ok=True), "max": self.itermax(), "body": self.body()}
                 if r.random() < 0.5:
                     s["breakif"] = self.cond()
                     s["break_pos"] = r.randrange(0, len(s["body"]) + 1)
@@ -2521,7 +2659,7 @@ class BlockGen:
             lv = "_i%d" % self.lvn
             stop = {"ref": r.randrange(0, 8), "t": "I"}     # inputs are >= 0: the documented domain of a bound
             self.loopvars.append(lv)
-            s = {"s": "block_for", "stop": stop, "max": r.randrange(1, 5), "lv": lv,
+            s = {"s": "block_for", "stop": stop, "max": self.itermax(), "lv": lv,
                  "checkstopmax": r.random() < 0.4, "body": self.body()}
             if r.random() < 0.2:
                 # the two-argument form: public start, secret stop >= start, cap above the start
@@ -2559,6 +2697,10 @@ class BlockGen:
         for nm in self.names:
             e = {"ref": r.randrange(0, 8), "t": "I"} if r.random() < 0.5 else {"k": r.choice([0, 1, 2, 3, 10])}
             body.append({"s": "tracked_init", "name": nm, "e": e})
+        for nm in self.flags:
+            body.append({"s": "tracked_init", "name": nm, "e": {"k": 1} if r.random() < 0.7 else
+                         {"op": "-", "a": {"k": 1}, "b": {"op": "==", "a": {"ref": r.randrange(0, 8), "t": "I"},
+                                                        "b": {"k": r.choice([0, 1, 2])}}}})
         for nm in sorted(self.lists):
             dims = self.lists[nm]
 
@@ -2568,8 +2710,20 @@ class BlockGen:
                                       {"k": r.choice([0, 1, 2, 3, 9])}) for _ in range(d[0])]}
                 return {"list": [lit(d[1:]) for _ in range(d[0])]}
             body.append({"s": "tracked_init", "name": nm, "e": lit(dims)})
-        for _ in range(r.randrange(1, 5)):
+        for _ in range(r.randrange(1, 3 if self.small else 5)):
             body.append(self.stmt())
+        if self.flags and r.random() < (0.6 if self.small else 0.4):
+            # the flag-loop idiom: `_.go = 1; while _while(_.go): ...; _.go = 1 - (x == target)`
+            self.depth += 1
+            lb = self.body(1) if r.random() < 0.5 else []
+            self.depth -= 1
+            nm = r.choice(self.names)
+            lb.insert(r.randrange(0, len(lb) + 1),
+                      {"s": "track", "name": nm, "e": {"op": "+", "a": {"tv": nm}, "b": {"k": r.choice([1, 2, 3])}}})
+            lb.insert(r.randrange(0, len(lb) + 1),
+                      {"s": "track", "name": "g0", "e": {"op": "-", "a": {"k": 1}, "b": self.cmp()}})
+            loop = {"s": "block_while", "cond": {"tv": "g0"}, "max": r.randrange(2, 4), "body": lb}
+            body.insert(r.randrange(len(self.names) + len(self.flags) + len(self.lists), len(body) + 1), loop)
         return {"cfg": self.cfg, "inputs": inputs, "body": body, "blocks": True}
 
 
@@ -3754,8 +3908,13 @@ def judge_qap_run(run, plan):
                 yield "glue_incomplete", {}, "call %s of %s: %d glued wires, %d arguments+results" % (
                     c2, f["name"], len(w1), want)
                 break
-    ncalls = sum(1 for c in fns if c != "main")
-    if nglue != ncalls:
+    # (a call without any secret argument or result has nothing to tie and gets no blocks)
+    io_by_name = {}
+    for f in plan.get("subqaps", []):
+        io_by_name.setdefault(f["name"], set()).add(f["nargs"] + P.CodeGen.SUBQAP_RET[f["tmpl"]] > 0)
+    ncalls = sum(1 for c in fns if c != "main" and io_by_name.get(fns[c], {True}) != {False})
+    ambiguous = any(c != "main" and len(io_by_name.get(fns[c], {True})) > 1 for c in fns)   # (two bodies, one name)
+    if nglue != ncalls and not ambiguous:
         yield "glue_incomplete", {"what": "count"}, "%d sub-circuit calls, %d [glue] lines" % (ncalls, nglue)
 
 
@@ -3883,8 +4042,10 @@ class C12(TraceCheck):
         nf = rng.randrange(0, 4)
         subqaps = []
         for k in range(nf):
-            subqaps.append({"name": "f%d" % k, "nargs": rng.randrange(1, 4), "tmpl": rng.randrange(0, 6),
+            subqaps.append({"name": "f%d" % k, "nargs": rng.randrange(1, 4), "tmpl": rng.randrange(0, 8),
                             "inner": rng.randrange(0, k) if k else None})
+            if subqaps[-1]["tmpl"] in (6, 7):
+                subqaps[-1]["nargs"] = 0
         same_name = nf >= 2 and rng.random() < 0.08
         if same_name:
             subqaps[1]["name"] = subqaps[0]["name"]
@@ -3940,6 +4101,7 @@ class C12(TraceCheck):
             j = rng.randrange(len(subqaps))
             edited = copy.deepcopy(subqaps)
             edited[j]["tmpl"] = (edited[j]["tmpl"] + rng.randrange(1, 3)) % 3 if edited[j]["tmpl"] < 3 else rng.randrange(0, 3)
+            edited[j]["nargs"] = max(1, edited[j]["nargs"])      # (the argument-free template has no parameters)
             case["edited_subqaps"] = edited
             case["edit_fault"] = rng.choice([None, ["qapgenf", 1], ["qapgenf", 2], ["qapprove", 1]])
             case["second_run"] = False
